@@ -44,6 +44,10 @@ int vnacal_new_set_m_error(vnacal_new_t *vnp,
     vnacal_t *vcp;
     const vnacal_layout_t *vlp;
     vnacal_new_m_error_t *m_error_vector = NULL;
+    bool use_spline;
+    double (*c_nf)[3] = NULL;
+    double (*c_tr)[3] = NULL;
+    int rv = -1;
 
     /*
      * Validate arguments.
@@ -158,13 +162,42 @@ int vnacal_new_set_m_error(vnacal_new_t *vnp,
     }
 
     /*
+     * If the errors are given on their own frequency grid, find the
+     * spline coefficients first: a refused call must leave the current
+     * error model as it is.
+     */
+    use_spline = frequencies != 1 && frequency_vector != NULL;
+    if (use_spline) {
+	const size_t size = (size_t)(frequencies - 1) * 3 * sizeof(double);
+
+	if ((c_nf = malloc(size)) == NULL || (c_tr = malloc(size)) == NULL) {
+	    _vnacal_error(vcp, VNAERR_SYSTEM, "malloc: %s", strerror(errno));
+	    goto out;
+	}
+	if (_vnacommon_spline_calc(frequencies - 1, frequency_vector,
+		    sigma_nf_vector, c_nf) == -1 ||
+		(sigma_tr_vector != NULL &&
+		 _vnacommon_spline_calc(frequencies - 1, frequency_vector,
+		     sigma_tr_vector, c_tr) == -1)) {
+	    if (errno == EINVAL) {
+		_vnacal_error(vcp, VNAERR_USAGE, "vnacal_new_set_m_error: "
+			"frequency values are too close together");
+	    } else {
+		_vnacal_error(vcp, VNAERR_SYSTEM, "malloc: %s",
+			strerror(errno));
+	    }
+	    goto out;
+	}
+    }
+
+    /*
      * Allocate the vector if needed.
      */
     if (m_error_vector == NULL) {
 	if ((m_error_vector = malloc(vnp->vn_frequencies *
 			sizeof(vnacal_new_m_error_t))) == NULL) {
 	    _vnacal_error(vcp, VNAERR_SYSTEM, "malloc: %s", strerror(errno));
-	    return -1;
+	    goto out;
 	}
 	vnp->vn_m_error_vector = m_error_vector;
     }
@@ -216,34 +249,26 @@ int vnacal_new_set_m_error(vnacal_new_t *vnp,
      * given.
      */
     } else {
-	double c_vector[frequencies - 1][3];
-
-	if (_vnacommon_spline_calc(frequencies - 1, frequency_vector,
-		    sigma_nf_vector, c_vector) == -1) {
-	    _vnacal_error(vcp, VNAERR_SYSTEM, "malloc: %s",
-		    strerror(errno));
-	    return -1;
-	}
+	assert(use_spline);
 	for (int findex = 0; findex < vnp->vn_frequencies; ++findex) {
 	    vnp->vn_m_error_vector[findex].vnme_sigma_nf =
 		_vnacommon_spline_eval(frequencies - 1, frequency_vector,
-			sigma_nf_vector, c_vector,
+			sigma_nf_vector, c_nf,
 			vnp->vn_frequency_vector[findex]);
 	}
 	if (sigma_tr_vector != NULL) {
-	    if (_vnacommon_spline_calc(frequencies - 1, frequency_vector,
-			sigma_tr_vector, c_vector) == -1) {
-		_vnacal_error(vcp, VNAERR_SYSTEM, "malloc: %s",
-			strerror(errno));
-		return -1;
-	    }
 	    for (int findex = 0; findex < vnp->vn_frequencies; ++findex) {
 		vnp->vn_m_error_vector[findex].vnme_sigma_tr =
 		    _vnacommon_spline_eval(frequencies - 1, frequency_vector,
-			    sigma_tr_vector, c_vector,
+			    sigma_tr_vector, c_tr,
 			    vnp->vn_frequency_vector[findex]);
 	    }
 	}
     }
-    return 0;
+    rv = 0;
+
+out:
+    free((void *)c_nf);
+    free((void *)c_tr);
+    return rv;
 }
